@@ -47,7 +47,7 @@ fn explorations(run: &Run, flags: Flags) {
     let plan: Vec<(usize, usize, bool)> = if quick {
         vec![(2, 6, false), (3, 5, false)]
     } else {
-        vec![(2, 8, false), (3, 7, false), (2, 5, true), (4, 5, false)]
+        vec![(2, 5, true), (4, 4, false), (3, 6, false), (2, 7, false)]
     };
     for (vars, depth, memo_key) in plan {
         let cfg = Explore {
